@@ -278,10 +278,10 @@ func poolTypeOK(p *core.Prog, pi *poolInfo, f *ssa.Function, ta *ssa.TypeAssert)
 // expanded successfully, or an object on which a dominating spec.ExpandSchema call succeeded.
 func ExpandFirst(p *core.Prog, r *core.Report) {
 	const rule = "EXPAND-FIRST"
-	files := map[string]bool{"spec.go": true, "default_validator.go": true, "example_validator.go": true, "helpers.go": true}
+	scope := specScope(p)
 	n := 0
 	for _, f := range p.Funcs {
-		if !files[p.File(f.Pos())] {
+		if !scope[f] {
 			continue
 		}
 		fn := core.FuncName(f)
